@@ -118,7 +118,8 @@ def m2_accessor(run, project, L):
                         it.call(init, [selfobj] + [given[r_] for r_ in R["init_args"]], {k_: given[r_] for k_, r_ in R["init_kwargs"].items()})
                     else:
                         selfobj.attrs.update(_name=name, _mask=mask)
-                    got = it.call(f, [selfobj, TypeRef("register", attrs={"_value": vec.concrete() if vec.concrete() is not None else vec}), None])
+                    got = it.call(f, [selfobj, TypeRef("register", attrs={"_value": vec.concrete() if vec.concrete() is not None else vec, "_name": None,
+                                                                        "_details": None, "_int_size": width // 8, "__partial__": True}), None])
                 except NeedBit as nb:
                     if nb.index is None or nb.index in assume:
                         raise AnalysisError(f"M2: cannot split the evaluation of the accessor of {k}.{name}")
@@ -329,11 +330,12 @@ def fold_pretty_attrs(project, k, size, value, masks):
         raise AnalysisError("M2: pretty_attrs not found")
     P = RowPath
     if True:
-        attrs = [TypeRef("mask", attrs={"_value": m_, "_name": nm, "_details": d_}) for nm, m_, d_ in masks]
+        attrs = [TypeRef("mask", attrs={"_value": m_, "_name": nm, "_details": d_, "_int_size": size, "__partial__": True})
+                 for nm, m_, d_ in masks]
         # (a runtime word is built with name=None, details=None: it has the attribute, empty)
-        word = TypeRef(k, attrs={"_value": value, "_int_size": size, "_name": None, "_details": None,
+        word = TypeRef(k, attrs={"_value": value, "_int_size": size, "_name": None, "_details": None, "__partial__": True,
                                  "attributes": lambda attrs=attrs: list(attrs)})
-        event = TypeRef("event", attrs={"value": word, "path": P(()), "type": TypeRef(k)})
+        event = TypeRef("event", attrs={"value": word, "path": P(()), "type": TypeRef(k), "__partial__": True})
         fmt_fn = mod.functions().get("format")
         fpar = [a_.arg for a_ in fmt_fn.args.args] if fmt_fn is not None else ["tpm_type", "path", "binary", "value"]
         fdefs = {}
